@@ -12,8 +12,12 @@
 //	       virtual time.  Periods and clock advances are multiples of half a second, so ticks fall
 //	       exactly on the idle / expiry boundaries as well as next to them; stamps are compared too.
 //	async  the real Run + lookup dispatcher goroutines with a mock clock for the refresh ticker and
-//	       concurrent submitters; checked by monitors only (every submitted source queried, one answer
-//	       per position of every provider call, batch sizes, good data kept, eviction).
+//	       concurrent submitters; checked by monitors (every submitted source queried, one answer
+//	       per position of every provider call, batch sizes, good data kept, eviction); the sequence
+//	       of provider calls must be that of a run of Model/InstanceDispatcher.v (Coq).
+//	disp   the real dispatcher loop alone, driven event by event (disp.go); Coq decides whether the
+//	       recorded trace (receives, provider calls, infos, cancellation, return) is a run of
+//	       Model/InstanceDispatcher.v.
 package main
 
 import (
@@ -57,10 +61,11 @@ type asyncIn struct {
 }
 
 type input struct {
-	Kind  string   `json:"kind"` // lock | async
+	Kind  string   `json:"kind"` // lock | async | disp
 	Cfg   cfgIn    `json:"cfg"`
 	Ops   []opIn   `json:"ops,omitempty"`
 	Async *asyncIn `json:"async,omitempty"`
+	Disp  *dispIn  `json:"disp,omitempty"`
 }
 
 func main() {
@@ -76,6 +81,10 @@ func main() {
 				em.Emit(runAsync(genAsync(cr)))
 				continue
 			}
+			if i%12 == 5 {
+				em.Emit(genDisp(cr))
+				continue
+			}
 			em.Emit(genLock(cr, a.Tier))
 		}
 	case "run":
@@ -85,9 +94,12 @@ func main() {
 				fmt.Fprintln(os.Stderr, "bad input:", err)
 				os.Exit(2)
 			}
-			if in.Kind == "async" {
+			switch in.Kind {
+			case "async":
 				em.Emit(runAsync(in))
-			} else {
+			case "disp":
+				em.Emit(runDisp(in))
+			default:
 				em.Emit(runLock(in))
 			}
 		}
